@@ -84,6 +84,8 @@ pub enum Operand {
 #[derive(Clone, Debug, PartialEq)]
 pub enum MExpr {
     Eq(Operand, Operand),
+    /// ordering / inequality comparison; op is one of "!=", "<", "<=", ">", ">="
+    Cmp(String, Operand, Operand),
     Exists(bool, Vec<Step>),
     And(Box<MExpr>, Box<MExpr>),
     Or(Box<MExpr>, Box<MExpr>),
@@ -152,6 +154,17 @@ fn expr_to_lib(e: &MExpr) -> jp::Expr<'static> {
     match e {
         MExpr::Eq(l, r) => jp::Expr::BinaryOp {
             op: jp::BinaryOperator::Eq,
+            left: Box::new(operand_to_lib(l)),
+            right: Box::new(operand_to_lib(r)),
+        },
+        MExpr::Cmp(op, l, r) => jp::Expr::BinaryOp {
+            op: match op.as_str() {
+                "!=" => jp::BinaryOperator::NotEq,
+                "<" => jp::BinaryOperator::Lt,
+                "<=" => jp::BinaryOperator::Lte,
+                ">" => jp::BinaryOperator::Gt,
+                _ => jp::BinaryOperator::Gte,
+            },
             left: Box::new(operand_to_lib(l)),
             right: Box::new(operand_to_lib(r)),
         },
@@ -262,13 +275,17 @@ fn operand_from(j: &J) -> Result<Operand, String> {
 fn expr_json(e: &MExpr) -> J {
     match e {
         MExpr::Eq(l, r) => json!({"eq": [operand_json(l), operand_json(r)]}),
+        MExpr::Cmp(op, l, r) => json!({"cmp": op, "args": [operand_json(l), operand_json(r)]}),
         MExpr::Exists(cur, s) => json!({"exists_from": if *cur { "@" } else { "$" }, "steps": steps_json(s)}),
         MExpr::And(l, r) => json!({"and": [expr_json(l), expr_json(r)]}),
         MExpr::Or(l, r) => json!({"or": [expr_json(l), expr_json(r)]}),
     }
 }
 fn expr_from(j: &J) -> Result<MExpr, String> {
-    if let Some(a) = j.get("eq").and_then(|v| v.as_array()) {
+    if let Some(op) = j.get("cmp").and_then(|v| v.as_str()) {
+        let a = j["args"].as_array().ok_or("cmp args")?;
+        Ok(MExpr::Cmp(op.to_string(), operand_from(&a[0])?, operand_from(&a[1])?))
+    } else if let Some(a) = j.get("eq").and_then(|v| v.as_array()) {
         Ok(MExpr::Eq(operand_from(&a[0])?, operand_from(&a[1])?))
     } else if j.get("exists_from").is_some() {
         Ok(MExpr::Exists(j["exists_from"] == "@", steps_from(&j["steps"])?))
